@@ -20,8 +20,8 @@ import traceback
 from fractions import Fraction
 
 ROOT = os.path.dirname(os.path.dirname(os.path.abspath(__file__)))
-REPLAY_DIR = os.path.join(ROOT, "replays")
-EVID_DIR = os.path.join(ROOT, "evidence")
+REPLAY_DIR = os.environ.get("VERIF_REPLAY_DIR") or os.path.join(ROOT, "replays")
+EVID_DIR = os.environ.get("VERIF_EVIDENCE_DIR") or os.path.join(ROOT, "evidence")
 
 
 class ConfigTimeout(BaseException):
@@ -84,10 +84,13 @@ def run_config(args):
                 out["obligations"] += 1
                 if getattr(mod, "REDUCE", False):
                     obl = S.reduce_b(obl, ctx.rules)
-                if name.endswith("~"):     # tolerance obligation over box-bounded inputs: relaxation first
-                    verdict, env, dt = solve.decide_relaxed(ctx.pc, obl)
-                else:
-                    verdict, env, dt = solve.decide(ctx.pc, obl)
+                dec = solve.decide_relaxed if name.endswith("~") else solve.decide   # "~": tolerance obligation over box-bounded inputs
+                cone = ctx.cone_pc(obl)      # goal-directed subset of the path condition: unsat there is sound
+                verdict, env, dt = dec(cone, obl)
+                if verdict != "unsat" and len(cone) != len(ctx.pc):
+                    pc = ctx.relevant_pc(obl)   # exact: only definitions of auxiliary variables nothing refers to are dropped
+                    verdict, env, dt2 = dec(pc, obl)
+                    dt += dt2
                 out["solver_s"] += dt
                 if obl.k != "c":
                     txt = obl.smt2()
@@ -160,7 +163,7 @@ def replay_file(path):
 def _replay_subprocess(path):
     env = dict(os.environ)
     env.pop("NUMBA_DISABLE_JIT", None)
-    env["PYTHONPATH"] = ROOT
+    env["PYTHONPATH"] = (os.environ["VERIF_REPO"] + os.pathsep if os.environ.get("VERIF_REPO") else "") + ROOT
     r = subprocess.run([sys.executable, "-m", "symsig.runner", "--replay", path], cwd=ROOT, env=env,
                        capture_output=True, text=True, timeout=900)
     return r.returncode, (r.stdout + r.stderr)[-2000:]
